@@ -3,6 +3,7 @@ package c13
 import (
 	"time"
 
+	"verif/harness/memnet"
 	"verif/harness/pbt"
 )
 
@@ -74,22 +75,45 @@ func sdInsideFailingStartCase() Scenario {
 	}
 }
 
+// lateHandoverCase is the open remark of round 10 (a decidable part of remark 2 of round 8): a
+// generic PacketConn, one request; the server's (decorated) Reader has read the datagram and is still
+// busy with it - it returns only when Shutdown has returned - when ShutdownContext is called with a
+// context that has expired: that call returns the context's error at once, the Reader then hands the
+// request to the serve loop, and the loop starts a handler for it. (The handler's reply cannot be
+// written either: that Shutdown closed the socket on its way out.)
+func lateHandoverCase(transport string) Scenario {
+	at := "reader.return(pc,1,ok)"
+	if transport == "memTCP" {
+		at = "reader.return(1,1,ok)"
+	}
+	return Scenario{
+		Transport: transport, MaxTCP: -1,
+		Clients:    []Client{{Reqs: []Req{{Mode: "fast"}}, Close: "end"}},
+		Trigger:    at,
+		FallbackMs: 150, HoldMs: 2,
+		Ctx:   "expired",
+		Waits: []memnet.Wait{{At: at, For: "shutdown.return(*)", Once: true, TimeoutMs: 2000}},
+	}
+}
+
 func init() {
+	pbt.Probe(knownLateHandover, func() error {
+		if err := probeScenario(lateHandoverCase("memPacket"), 0); err != nil {
+			return err
+		}
+		return probeScenario(lateHandoverCase("memTCP"), 0)
+	})
 	pbt.Probe(knownRestartDrain, func() error {
-		_, err := runScenario(restartDuringDrainCase())
-		return err
+		return probeScenario(restartDuringDrainCase(), 0)
 	})
 	pbt.Probe(knownListenRestart, func() error {
-		_, err := runScenario(listenRestartCase())
-		return err
+		return probeScenario(listenRestartCase(), 0)
 	})
 	pbt.Probe(knownStaleSocket, func() error {
-		_, err := runScenario(staleSocketCase())
-		return err
+		return probeScenario(staleSocketCase(), 0)
 	})
 	pbt.Probe(knownSdInsideFailingStart, func() error {
-		_, err := runScenarioOpt(sdInsideFailingStartCase(), 3*time.Second)
-		return err
+		return probeScenario(sdInsideFailingStartCase(), 3*time.Second)
 	})
 	pbt.Register(pbt.Sub[Scenario]{Name: "scenario-mem", Weight: 1, Gen: genMem, Check: checkScenario})
 	pbt.Register(pbt.Sub[Scenario]{Name: "scenario-real", Weight: 0.3, Gen: genReal, Check: checkScenario})
@@ -97,5 +121,7 @@ func init() {
 	pbt.Register(pbt.Sub[Scenario]{Name: "scenario-restart", Weight: 0.15, Gen: genRestart, Check: checkScenario})
 	// the same through ListenAndServe (the library makes the sockets and replaces them in the Server value), and restarts while Shutdown is still waiting
 	pbt.Register(pbt.Sub[Scenario]{Name: "scenario-listen", Weight: 0.12, Gen: genListen, Check: checkScenario})
+	// round 10: a fatal error of the listener / socket ends the serve loop while handlers of the run are in flight; then Shutdown
+	pbt.Register(pbt.Sub[Scenario]{Name: "scenario-fault", Weight: 0.12, Gen: genFault, Check: checkScenario})
 	pbt.Register(pbt.Sub[Stress]{Name: "stress", Weight: 0.5, Gen: genStress, Check: checkStress})
 }
